@@ -436,6 +436,14 @@ fn parse_at_rule(
                             });
                             return Ok(false);
                         }
+                        Token::Function(f)
+                            if at_keyword == "import" && f.eq_ignore_ascii_case("layer") =>
+                        {
+                            // a layer name such as `a.b` contains no class selector
+                            let close = ss.append_nested_block(next, input);
+                            convert_rpx_in_block(input, ss, None);
+                            ss.append_nested_block_close(close, input);
+                        }
                         Token::SquareBracketBlock
                         | Token::ParenthesisBlock
                         | Token::Function(_) => {
